@@ -40,6 +40,20 @@ def write_trace(td, streams, order=None, offsets=None, offsets_name="clock-offse
                 f.write("%d %s %d %f %f\n" % (k, host, off, float(off) + 116.25 + k, 31.5))
 
 
+def spelled(td, k):
+    """the same trace directory named in another way on the command line: -> (argument, cwd)"""
+    k %= 5
+    if k == 1:
+        return td + "/", None
+    if k == 2:
+        return "./" + os.path.basename(td), os.path.dirname(td)
+    if k == 3:
+        return os.path.dirname(td) + "/./" + os.path.basename(td) + "//", None
+    if k == 4:
+        return os.path.basename(td), os.path.dirname(td)
+    return td, None
+
+
 def check_dump(out, streams):
     """ovnidump oracle: returns None or message"""
     lines = [l for l in out.split("\n") if l.strip()]
@@ -178,14 +192,16 @@ def run(prop, tier):
             td = os.path.join(base, "d%d" % os.getpid())
             st = mk_streams(combo)
             write_trace(td, st)
-            rc, out, err = emusrv.run_tool(dump, ["-x", td])
+            # (the directory is named in five ways in turn: plain, trailing slash, ./relative, with /./ and //, bare relative)
+            arg, cwd = spelled(td, sum(len(c) for c in combo) + len(combo))
+            rc, out, err = emusrv.run_tool(dump, ["-x", arg], cwd=cwd)
             if rc != 0:
-                return "ovnidump exit %r: %s" % (rc, err[-200:])
+                return "ovnidump %s exit %r: %s" % (arg, rc, err[-200:])
             msg = check_dump(out, st)
             if msg:
-                return msg
+                return msg + " (trace directory given as %r)" % arg
             # ovnitop consumes the same merged sequence: every event counted exactly once
-            rc, out, err = emusrv.run_tool(top, [td])
+            rc, out, err = emusrv.run_tool(top, [arg], cwd=cwd)
             if rc != 0:
                 return "ovnitop exit %r: %s" % (rc, err[-200:])
             got = {}
@@ -250,6 +266,14 @@ def run(prop, tier):
                 jobs.append(((a, b), ("h1", "h2"), {far: -H, ("h1" if far == "h2" else "h2"): 0}, False))
                 jobs.append(((a, b, a), ("h1", "h2", "h1"), {far: -H, ("h1" if far == "h2" else "h2"): 3}, False))
 
+        # many hosts: 40 looms (names of one and two digits), one thread each, a table with one offset per host; the events
+        # of all streams interleave once the offsets are applied
+        for variant in (0, 1):
+            looms = tuple("n%d.1" % k for k in range(40))
+            combo = tuple(((k * 7) % 40 + 40 * variant, (k * 7) % 40 + 45, 130 + k) for k in range(40))
+            ot = {"n%d" % k: (3 * k if variant == 0 else -(k % 5)) for k in range(40)}
+            jobs.append((combo, looms, ot, False))
+
         def one_emu(j):
             combo, looms, ot, zero = j
             td = os.path.join(base, "e%d" % os.getpid())
@@ -264,8 +288,9 @@ def run(prop, tier):
             # alternate between the default file name and -c
             use_c = (len(combo) + len(combo[0])) % 2 == 1 and ot is not None
             write_trace(td, st, offsets=ot, offsets_name="offs.txt" if use_c else "clock-offsets.txt")
-            args = (["-c", os.path.join(td, "offs.txt")] if use_c else []) + [td]
-            rc, out, err = emusrv.run_tool(emu, args)
+            arg, cwd = spelled(td, sum(len(c) for c in combo) + len(looms[0]))
+            args = (["-c", os.path.join(td, "offs.txt")] if use_c else []) + [arg]
+            rc, out, err = emusrv.run_tool(emu, args, cwd=cwd)
             if rc != 0:
                 e = [l for l in err.split("\n") if "ERROR" in l]
                 e = e[:2] + [l for l in e[2:] if "clock gate" in l][:1]
